@@ -56,6 +56,19 @@ let parse_dec c =
      semver, marshalled)
   | t -> failwith ("bad dec tag " ^ t)
 
+(* decimal rendering of a (possibly > 2^62) integer token, for messages only *)
+let dec_of_z (x : z) : string =
+  let rec pos_bits p acc = match p with XH -> 1 :: acc | XO q -> pos_bits q (0 :: acc) | XI q -> pos_bits q (1 :: acc) in
+  let of_pos p =
+    (* most significant bit first; schoolbook doubling on a decimal digit list (least significant first) *)
+    let dbl_add digits bit =
+      let rec go ds carry = match ds with
+        | [] -> if carry = 0 then [] else [carry]
+        | d :: rest -> let v = 2 * d + carry in (v mod 10) :: go rest (v / 10) in
+      go digits bit in
+    let digits = List.fold_left dbl_add [] (pos_bits p []) in
+    String.concat "" (List.rev_map string_of_int digits) in
+  match x with Z0 -> "0" | Zpos p -> of_pos p | Zneg p -> "-" ^ of_pos p
 let show_status = function S2xx -> "2xx" | S4xx -> "4xx" | S5xx -> "5xx"
 let show_fs (m : (n list list * entry) list) =
   String.concat ";" (List.filter_map (fun (p, e) ->
@@ -75,6 +88,8 @@ let handle_case kind c =
     for i = 1 to k do
       let meth = next_bytes c in
       let url = next_bytes c in
+      let transport = next c in
+      let declared = next_z c in
       let bprefix = next c in
       let bpad = next_int c in
       let bpadn = next_int c in
@@ -88,8 +103,8 @@ let handle_case kind c =
       let semver = (fun _ -> semver_ans) in
       let marshal = (fun _ -> marshalled) in
       let describe () =
-        Printf.sprintf "request %d: %s %s body=%S + %d x byte %d + %d bytes (size_ok=%b, decodes=%b) -> %s; bucket before {%s} after {%s}"
-          i (string_of_bytes meth) (string_of_bytes url)
+        Printf.sprintf "request %d (%s, declared Content-Length %s): %s %s body=%S + %d x byte %d + %d bytes (size_ok=%b, decodes=%b) -> %s; bucket before {%s} after {%s}"
+          i transport (dec_of_z declared) (string_of_bytes meth) (string_of_bytes url)
           (clip (string_of_bytes (bytes_of_tok bprefix))) bpadn bpad ((String.length bsuffix - 1) / 2)
           size_ok (decoded <> None) status (clip (show_fs !before)) (clip (show_fs after)) in
       (* why the model calls a decoded report's contents unapproved (for the replay text) *)
@@ -113,7 +128,7 @@ let handle_case kind c =
                 else bad_c @ bad_s) r.r_programs in
           if items = [] then "" else " [not approved: " ^ String.concat "; " items ^ "]" in
       (* model vs implementation *)
-      let (mst, mfs) = handle semver marshal cfg meth size_ok decoded !before in
+      let (mst, mfs) = handle_http semver marshal cfg meth declared size_ok decoded !before in
       if show_status mst <> status then
         diff (Printf.sprintf "req%d-status" i) ~model:(show_status mst) ~impl:(status ^ " | " ^ describe ());
       if mfs <> after then
@@ -131,7 +146,10 @@ let handle_case kind c =
           (* the bucket holds foreign content that is in the way: nothing can be stored, so no success may be reported *)
           if status = "2xx" || changed then prop "acknowledged-unstored" (describe ())
         end else begin
-          if status = "5xx" then prop "never-5xx" (describe ())
+          if status = "5xx" then begin
+            let body_len = (String.length bprefix - 1) / 2 + bpadn + (String.length bsuffix - 1) / 2 in
+            prop (if declared <> z_of_int body_len then "declared-length-5xx" else "never-5xx") (describe ())
+          end
           else if status <> "2xx" then prop "stores-iff-valid" ("valid report refused: " ^ describe ());
           if after <> wfs then
             prop "stored-object" (Printf.sprintf "expected exactly object %S with the marshalled report; %s"
@@ -143,7 +161,10 @@ let handle_case kind c =
           let has_null = match decoded with
             | Some r -> List.exists (fun o -> o = None) r.r_programs
             | None -> false in
-          if has_null then prop "null-program-5xx" (describe ()) else prop "never-5xx" (describe ())
+          let body_len = (String.length bprefix - 1) / 2 + bpadn + (String.length bsuffix - 1) / 2 in
+          if has_null then prop "null-program-5xx" (describe ())
+          else if declared <> z_of_int body_len then prop "declared-length-5xx" (describe ())
+          else prop "never-5xx" (describe ())
         end;
         if not size_ok && (status <> "4xx" || changed) then prop "oversize-refused" (describe ())
         else if status = "2xx" || changed then prop "stores-iff-valid" ("invalid request stored or acknowledged:" ^ why () ^ " " ^ describe ())
